@@ -608,6 +608,7 @@ func runE2E(e E2E) vt.Verdict {
 func TestProp(t *testing.T) {
 	vt.Run(t, prop,
 		vt.Sub[Case]{Prop: prop, Name: "pipeline", Gen: genCase, Run: run, Classify: classify}.WithBudget(2500, 30000),
+		vt.Sub[PMCase]{Prop: prop, Name: "pipemsg", Gen: genPM, Run: runPM, Classify: classifyPM}.WithBudget(2000, 30000),
 		vt.Sub[E2E]{Prop: prop, Name: "e2e", Gen: genE2E, Run: runE2E, Classify: func(e E2E) (bool, []string) { return len(e.Opts) >= 2, nil }}.WithBudget(300, 3000),
 	)
 }
